@@ -322,6 +322,11 @@ let rec run_op (ctx : ctx) (op : string) : string =
   match f.(0) with
   | "H" -> run_schedule f.(2)
   | "HS" -> run_sequential (int_of_string f.(1))
+  | "PR" ->
+    let r1 = run_op ctx ("P," ^ f.(1)) in
+    let r2 = run_op ctx "rc" in
+    let r3 = run_op ctx "b" in
+    r1 ^ "|" ^ r2 ^ "|" ^ r3
   | "PF" ->
     let r1 = run_op ctx ("P," ^ f.(1)) in
     let rest = String.concat "," (Array.to_list (Array.sub f 2 (Array.length f - 2))) in
